@@ -1049,10 +1049,14 @@ func afmSamples(e afmEvent, variant int) (line string, vals []afmSampleValue, ok
 				return "", nil, false
 			default:
 				w := words[i%len(words)]
-				if variant == 1 {
+				if variant >= 1 {
 					switch a.field {
 					case "Metrics.FullName", "Metrics.Version", "Metrics.Notice":
 						w = w + " (c) " + w + " 1.5"
+						if variant == 2 {
+							// free text: white space inside it is part of the value
+							w = w + "  two blanks,\ta tab"
+						}
 					}
 				}
 				sval = afmSampleValue{w, sv{k: svString, s: w}}
@@ -1190,7 +1194,17 @@ func (m *afmReaderModel) sameMode(a, b *afmMode) bool {
 }
 
 // layoutVariants: the same line as an independent writer may lay it out.
-func afmLayoutVariants(line string, glyph bool) []string {
+func afmLayoutVariants(line string, glyph bool, freeText ...bool) []string {
+	if len(freeText) > 0 && freeText[0] {
+		// the value is free text to the end of the line: white space inside it is content; an
+		// independent writer can only choose the separator after the keyword and what trails
+		i := strings.IndexByte(line, ' ')
+		if i < 0 {
+			return []string{line + " ", line + "\t"}
+		}
+		kw, rest := line[:i], line[i+1:]
+		return []string{line + " ", line + "\t", kw + "\t" + rest, kw + "  " + rest + "  ", "  " + kw + " \t " + rest}
+	}
 	out := []string{
 		line + " ",
 		line + "\t",
